@@ -50,9 +50,10 @@ Definition coll_remove (c : coll) (id : N) : option coll :=
 
 Definition coll_ids (c : coll) : list N := sort_by N.ltb (map fst (c_docs c)).
 (* listing order of Search (K = 0, Radius = 0): record ids sorted as decimal strings (C16) *)
-Definition coll_listing (c : coll) : list N :=
-  sort_by (fun a b => bytes_ltb (dec_string a) (dec_string b)) (map fst (c_docs c)).
-Definition page (off lim : N) (l : list N) : list N :=
+Definition coll_listing (c : coll) : list (N * N) :=
+  map (fun id => (id, match dlookup id (c_docs c) with Some (_, m) => m | None => 0 end))
+      (sort_by (fun a b => bytes_ltb (dec_string a) (dec_string b)) (map fst (c_docs c))).
+Definition page {A} (off lim : N) (l : list A) : list A :=
   let r := skipn (N.to_nat off) l in if lim =? 0 then r else firstn (N.to_nat lim) r.
 
 (* ---------- server ---------- *)
@@ -92,6 +93,7 @@ Inductive request :=
 Inductive body :=
 | BNone
 | BIds (l : list N)
+| BDocs (l : list (N * N))      (* listing page: id, metadata token *)
 | BInfo (count : N) (dim q : Z) (metric : N)
 | BList (l : list (N * N))       (* name, document count *)
 | BOpaque.                       (* search results with a vector or a filter: judged by C03/C04/C13 *)
@@ -202,7 +204,7 @@ Definition handle (s : server) (rq : request) : server * response :=
           else if negb filter_ok then (s, Resp 400 BNone)
           else if text then (s, Resp 500 BNone)
           else if k_zero && r_zero then
-            (s, Resp 200 (if flt then BOpaque else BIds (page off lim (coll_listing c))))
+            (s, Resp 200 (if flt then BOpaque else BDocs (page off lim (coll_listing c))))
           else if negb (vlen =? c_dim c)%Z then (s, Resp 400 BNone)
           else (s, Resp 200 BOpaque)
       end
